@@ -5,7 +5,10 @@ import Dashu.Model.Float.RoundOps
 
   * `FRepr.toRat`         value of a float as a rational
   * `Contract`            the rounding contract of DESIGN §8 C03 as a proposition over `Rat`
-  * `contractOk`          an executable check of `Contract` (sound: `contractOk_sound`)
+  * `contractOk`          the executable check the driver evaluates beside every model result (error
+                          bound at the finest admissible unit, side condition, flags; it is a run-time
+                          cross-check of the theorems, not itself linked to `Contract` by a theorem)
+  * `Representable`       `x` has at most `p` significant base-`B` digits
   * `ContractSqrt`, `contractSqrtOk`  the same for `√v`, every comparison stated on squares
   * `roundInt`            rounding a rational to an integer in a given mode (definition of the mode)
 -/
@@ -41,13 +44,19 @@ instance (B : Nat) (m : Mode) (e : Int) (x r : Rat) : Decidable (errOk B m e x r
 /-- The rounding contract (property C03): `x` the exact real result, `r` the returned value,
     `flag` the returned `Rounding` (`none` = `Exact`), `p ≥ 1` the precision.
     The unit of the error bound is any `B^e` not coarser than the ulp of `x` at `p` digits
-    (`B^(e+p-1) ≤ |x|`), so the bound is the strict one also just below a power of `B`. -/
+    (`B^(e+p-1) ≤ |x|`), so the bound is the strict one also just below a power of `B`; the result
+    lies on the grid of that unit (`r ∈ B^e·ℤ`), which is what makes "`x` representable in `p` digits
+    ⇒ `r = x`" a consequence (`Proofs/Float/Closing.lean`). -/
 structure Contract (B : Nat) (m : Mode) (p : Nat) (x r : Rat) (flag : Option Rounding) : Prop where
   exact_iff : flag = none ↔ r = x
-  err : r ≠ x → ∃ e : Int, bpowQ B (e + p - 1) ≤ absQ x ∧ errOk B m e x r
+  err : r ≠ x → ∃ e : Int, bpowQ B (e + p - 1) ≤ absQ x ∧ errOk B m e x r ∧ ∃ t : Int, r = (t : Rat) * bpowQ B e
   side : sideOk m x r
   addOne : flag = some .AddOne → x < r
   subOne : flag = some .SubOne → r < x
+
+/-- `x = M · B^j` with `|M| < B^p`: at most `p` significant digits -/
+def Representable (B p : Nat) (x : Rat) : Prop :=
+  ∃ M j : Int, M.natAbs < B ^ p ∧ x = (M : Rat) * bpowQ B j
 
 /-- floor of `log_B x` for a positive rational given as `n / d` (`n, d > 0`, `B ≥ 2`) -/
 def ilogQ (B : Nat) (n d : Nat) : Int :=
@@ -100,7 +109,8 @@ instance (m : Mode) (v r : Rat) : Decidable (sideSqrtOk m v r) := by
 structure ContractSqrt (B : Nat) (m : Mode) (p : Nat) (v r : Rat) (flag : Option Rounding) : Prop where
   nonneg : 0 ≤ r
   exact_iff : flag = none ↔ r * r = v
-  err : r * r ≠ v → ∃ e : Int, bpowQ B (e + p - 1) * bpowQ B (e + p - 1) ≤ v ∧ errSqrtOk B m e v r
+  err : r * r ≠ v → ∃ e : Int, bpowQ B (e + p - 1) * bpowQ B (e + p - 1) ≤ v ∧ errSqrtOk B m e v r ∧
+    ∃ t : Int, r = (t : Rat) * bpowQ B e
   side : sideSqrtOk m v r
   addOne : flag = some .AddOne → v < r * r
   subOne : flag = some .SubOne → r * r < v
